@@ -16,3 +16,4 @@ p.current_price = 90.0
 big.execute()
 print('after its fill: assets', e.assets, 'position qty', p.qty, p.type)
 # expected: InsufficientBalance at the second stop_order; got: accepted, position -3.0 short on a spot account
+# (repaired in /repo by commit dfa5cb16 = fixes/C04-sell-cancel-releases-sum-twice.diff; on the repaired tree this script shows the expected behaviour)
